@@ -475,6 +475,11 @@ func (g *vcgen) call2(v ssa.Value, c *ssa.CallCommon, args []string) []string {
 			return []string{g.applyTerm(sig, fv, args)}
 		}
 	}
+	if par, ok := c.Value.(*ssa.Parameter); ok && g.fc != nil && g.fc.Flags["foreach"] != "" {
+		if pn, _, ok := parseForeach(g.fc.Flags["foreach"]); ok && pn == par.Name() {
+			return g.foreachParamCall(par, c, args)
+		}
+	}
 	if mc, ok := g.closures[fv]; ok {
 		var binds []string
 		for _, bv := range mc.Bindings {
@@ -565,7 +570,7 @@ func (g *vcgen) havocAll() {
 			continue
 		}
 		// monitor bookkeeping, defer flags and range iterators are local to this activation
-		if strings.HasPrefix(n, "G.held.") || strings.HasPrefix(n, "G.bcast.") || strings.HasPrefix(n, "G.wold.") || strings.HasPrefix(n, "G.armed.") || strings.HasPrefix(n, "G.visited.") || strings.HasPrefix(n, "old:") || strings.HasPrefix(n, "G.applied.") || strings.HasPrefix(n, "G.appres.") {
+		if strings.HasPrefix(n, "G.held.") || strings.HasPrefix(n, "G.bcast.") || strings.HasPrefix(n, "G.wold.") || strings.HasPrefix(n, "G.armed.") || strings.HasPrefix(n, "G.visited.") || strings.HasPrefix(n, "old:") || strings.HasPrefix(n, "G.applied.") || strings.HasPrefix(n, "G.appres.") || n == feCalls {
 			continue
 		}
 		if strings.HasPrefix(n, "G.fret.") {
@@ -836,12 +841,22 @@ func (g *vcgen) applyFunc(v ssa.Value, fn *ssa.Function, args []string, binds []
 		if fc.Flags["applies"] != "" && c != nil {
 			return g.applyApplier(fc, fn, args, binds, c)
 		}
+		if fc.Flags["foreach"] != "" && c != nil {
+			return g.applyForeach(fc, fn, args, binds, c)
+		}
 		return g.applyContract(fc, fn, fn.Signature, args, binds, FullName(fn))
 	}
 	// promoted-method wrapper: apply the contract of the embedded type's method
 	if fn.Synthetic != "" && strings.HasPrefix(fn.Synthetic, "wrapper for") {
 		if res, ok := g.applyWrapper(fn, args); ok {
 			return res
+		}
+	}
+	if (fn.Blocks == nil || !g.eng.InModule(fn)) && c != nil {
+		for _, a := range c.Args {
+			if mc := g.originClosure(a); mc != nil {
+				g.closureHandedOver(mc, fn.String())
+			}
 		}
 	}
 	if fn.Blocks == nil || !g.eng.InModule(fn) {
@@ -1171,6 +1186,13 @@ func (g *vcgen) applyContract(fc *FuncContract, fn *ssa.Function, sig *types.Sig
 			}
 			if ti := g.typeInvOf(p.Type()); ti != nil {
 				invBefore[i] = g.typeInvTerms(ti, args[i], p.Type(), g.st)
+				if !g.storesToType(p.Type()) && !g.allocatesType(p.Type()) {
+					// visible-state semantics: a function that neither allocates nor stores into objects of the type
+					// only ever sees them in states in which their invariant holds
+					for _, tm := range invBefore[i] {
+						g.assume(fmt.Sprintf("(=> (not (= %s 0)) %s)", args[i], tm))
+					}
+				}
 				if os.Getenv("GOVC_INVARG") != "" {
 					for k, tm := range invBefore[i] {
 						g.obligeAt("typeinv-arg", fmt.Sprintf("%s:%s:%d", calleeShort, p.Name(), k), site, fmt.Sprintf("(=> (not (= %s 0)) %s)", args[i], tm), ti.Clauses[k].Src)
@@ -1307,6 +1329,9 @@ func (g *vcgen) applyContract(fc *FuncContract, fn *ssa.Function, sig *types.Sig
 				continue
 			}
 			for k := range after {
+				if before[k] == after[k] {
+					continue // nothing the invariant reads has changed
+				}
 				// the callee's unit proves the invariant at exit under the invariant at entry: only that implication is known here
 				g.assume(fmt.Sprintf("(=> (not (= %s 0)) (=> %s %s))", args[i], before[k], after[k]))
 			}
@@ -1395,6 +1420,11 @@ func (g *vcgen) havocTarget(m *CExpr, env *cenv, fn *ssa.Function) {
 		}
 	}
 	if m.Op == "id" {
+		if cv, ok := env.vars[m.Name]; ok && cv.cell != "" {
+			// a variable captured by the closure: its cell
+			g.storePtr(cv.cell, cv.typ, g.freshOfType("mod."+m.Name, cv.typ))
+			return
+		}
 		// a package-level variable
 		if env.pkg != nil {
 			if sp := g.eng.Prog.Package(env.pkg); sp != nil {
